@@ -9,9 +9,9 @@ cd "$wt" || exit 2
 git checkout -q -- . ; git clean -fdq
 git apply "$mut/patch.diff" || { echo "PATCH DOES NOT APPLY"; exit 1; }
 go build ./... || { echo "BUILD FAILS"; exit 1; }
-if go test -vet=off -count=1 ./... > /tmp/confirm-suite.log 2>&1; then echo "suite with patch: PASS"; else echo "suite with patch: FAIL"; grep -v "^ok\|no test files" /tmp/confirm-suite.log | head -20; fi
+if go test -vet=off -count=1 ./... > /tmp/confirm-suite-$(basename $mut).log 2>&1; then echo "suite with patch: PASS"; else echo "suite with patch: FAIL"; grep -v "^ok\|no test files" /tmp/confirm-suite-$(basename $mut).log | head -20; fi
 for f in "$mut"/demo/*_test.go; do cp "$f" "$wt/${pkg#./}"; done
-if timeout 900 go test -vet=off -count=1 -run "$re" $pkg > /tmp/confirm-demo-with.log 2>&1; then echo "demo with patch: PASS (unexpected)"; else echo "demo with patch: FAIL (expected)"; grep -E "^\s+---|FAIL|panic|DEADLOCK" /tmp/confirm-demo-with.log | head -8; fi
+if timeout 900 go test -vet=off -count=1 -run "$re" $pkg > /tmp/confirm-demo-with-$(basename $mut).log 2>&1; then echo "demo with patch: PASS (unexpected)"; else echo "demo with patch: FAIL (expected)"; grep -E "^\s+---|FAIL|panic|DEADLOCK" /tmp/confirm-demo-with-$(basename $mut).log | head -8; fi
 git apply -R "$mut/patch.diff"
-if timeout 900 go test -vet=off -count=1 -run "$re" $pkg > /tmp/confirm-demo-without.log 2>&1; then echo "demo without patch: PASS (expected)"; else echo "demo without patch: FAIL (unexpected)"; tail -20 /tmp/confirm-demo-without.log; fi
+if timeout 900 go test -vet=off -count=1 -run "$re" $pkg > /tmp/confirm-demo-without-$(basename $mut).log 2>&1; then echo "demo without patch: PASS (expected)"; else echo "demo without patch: FAIL (unexpected)"; tail -20 /tmp/confirm-demo-without-$(basename $mut).log; fi
 git checkout -q -- . ; git clean -fdq
